@@ -170,6 +170,9 @@ def make_runner(case, inc, pid, wd, ext, fault, seen, clock, rel=False):
             r = SimulationResults()
             r.add_new_result("tok", Result.SUMTYPE, token)
             r.add_new_result("rat", Result.RATIOTYPE, token, 2 ** 10)
+            # results whose own update count says nothing about the repetitions run: the last observation, a choice
+            r.add_new_result("mis", Result.MISCTYPE, token)
+            r.add_new_result("cho", Result.CHOICETYPE, 1, 3)
             return r
 
         def _keep_going(self, current_params, current_sim_results, current_rep):
@@ -347,6 +350,9 @@ def run_case(job):
                 if res.num_updates != R or res.get_result() != want:
                     return (f"variation {v}: stored value {res.get_result()} with {res.num_updates} updates; expected {want} = "
                             f"repetitions per incarnation {parts} (each counted once, total {R})"), None
+                cho = runner.results["cho"][v - 1]
+                if cho.num_updates != R or list(cho.get_result()) != [0.0, 1.0, 0.0]:
+                    return f"variation {v}: the choice result has {cho.num_updates} updates / shares {list(cho.get_result())}, expected {R} / [0, 1, 0]", None
                 rat = runner.results["rat"][v - 1]
                 if rat.get_result() != want / (R * 2 ** 10):
                     return f"variation {v}: ratio result inconsistent with {parts}", None
